@@ -131,15 +131,21 @@ def h_lines(which):
         p.assume(l3.e > ln.e + 3)
         nodes.append(mk(PT.Expression, l3, code=Code("_('MSG2')"), text="_('MSG2')", escapes="", escapes_code=Code("")))
         # the same sequence may sit inside a def / call with content: child nodes are extracted recursively
-        nesting = ["top-level", "inside-def", "inside-call"][p.choose(3, "nesting")]
+        nesting = ["top-level", "inside-def", "inside-call", "inside-inline-namespace"][p.choose(4, "nesting")]
         if nesting != "top-level":
             ld = values.new_int("outer_line", 1, None)
             first = nodes[0].lineno
             p.assume(ld.e < (first.e if isinstance(first, SymInt) else first))
             if nesting == "inside-def":
                 outer = mk(PT.DefTag, ld, function_decl=Code("def outer():pass"), keyword="def", attributes={})
-            else:
+            elif nesting == "inside-call":
                 outer = mk(PT.CallTag, ld, code=Code("outer()"), keyword="call", attributes={})
+            else:
+                # <%namespace name="x"> <%def name="inner()"> ... </%def> </%namespace>
+                inner = mk(PT.DefTag, ld, function_decl=Code("def inner():pass"), keyword="def", attributes={})
+                inner.nodes = nodes
+                nodes = [inner]
+                outer = mk(PT.NamespaceTag, ld, keyword="namespace", attributes={"name": "x"}, name="x")
             outer.nodes = nodes
             nodes = [outer]
         record = []
@@ -220,10 +226,13 @@ def on_corpus(p, r, exc, acc):
     if r["which"] == "babel" and r["layout"] == 0:
         # a template in another encoding than the extractor's default, declared by its magic comment (the Lingua plugin opens
         # files in text mode itself, before Mako sees them: not asserted)
-        enc = realproc.call("extract_encoded", "babel")
-        acc.vcs += 1
-        if enc is not None and list(enc[0]) != list(enc[1]) :
-            acc.candidate(kind="message-encoding", input=dict(extractor="babel", encoded=True), detail="extracted %r, the template says %r" % (enc[0], enc[1]))
+        from props.realops import ENCODED_VARIANTS
+        for variant in ENCODED_VARIANTS:
+            enc = realproc.call("extract_encoded", "babel", variant)
+            acc.vcs += 1
+            if enc is not None and list(enc[0]) != list(enc[1]):
+                acc.candidate(kind="message-encoding", input=dict(extractor="babel", encoded=variant),
+                              detail="extracted %r, the template says %r" % (enc[0], enc[1]))
 
 
 def make_replay(c):
@@ -237,9 +246,9 @@ bad = None
 print("case:", CASE)
 if "encoded" in CASE:
     from props.realops import extract_encoded
-    got, want = extract_encoded(CASE["extractor"])
+    got, want = extract_encoded(CASE["extractor"], CASE["encoded"] if isinstance(CASE["encoded"], str) else "comment-vs-option")
     print("extracted:", got, " written in the template:", want)
-    if list(got) != list(want): bad = "messages of a template whose magic comment names its encoding are extracted in another encoding"
+    if list(got) != list(want): bad = "messages of a template whose encoding is named by its magic comment / the extractor's options are not extracted as written"
 elif "marker" in CASE:
     for marker, want, got in extract_corpus(CASE["extractor"], CASE["leading_blank_lines"]):
         if marker == CASE["marker"]:
@@ -289,6 +298,8 @@ def classify(c):
     i = c.get("input") or {}
     if c["kind"] == "marker-extraction":
         mk_ = i.get("marker", "")
+        if mk_ == "filter-list-after-pipe-newline":
+            return "C20-filter-list-after-pipe-newline-line"
         if mk_.startswith("multiline-tag"):
             return "C20-multiline-tag-attribute-line"
         if mk_ in ("except-clause",) and i.get("extractor") == "lingua":
